@@ -530,3 +530,7 @@ def run(pm, ctx):
     run_decisions(pm, ctx, 'C01-RD', OWN['C01'])
     from .. import exprdrift
     exprdrift.run(pm, ctx, 'C01-RE', OWN['C01'])
+    from ..conddrift import run_calls
+    run_calls(pm, ctx, 'C01-RC', OWN['C01'])
+    from .. import memo
+    memo.run(pm, ctx, 'C01-MK', OWN['C01'])
